@@ -81,14 +81,52 @@ fn to_command(c: &Value) -> Command {
     }
 }
 
+fn listing(dir: &Path, out: &mut Vec<(PathBuf, u64)>) -> std::io::Result<()> {
+    for e in std::fs::read_dir(dir)? {
+        let e = e?;
+        let md = e.metadata()?;
+        if md.is_dir() {
+            listing(&e.path(), out)?;
+        } else {
+            out.push((e.path(), md.len()));
+        }
+    }
+    Ok(())
+}
+
+/// Copy of a live data directory. RocksDB removes obsolete files (old WAL / MANIFEST) in the background shortly
+/// after a flush; the copy is repeated until one pass saw a stable directory (same names and sizes before and
+/// after, no file vanished), so that the copy is a state the directory really had.
 fn copy_dir(src: &Path, dst: &Path) -> std::io::Result<()> {
+    let mut last_err = None;
+    for _ in 0..200 {
+        let mut before = vec![];
+        let r = listing(src, &mut before).and_then(|_| {
+            let _ = std::fs::remove_dir_all(dst);
+            copy_dir_once(src, dst)
+        });
+        let mut after = vec![];
+        let r = r.and_then(|_| listing(src, &mut after));
+        before.sort();
+        after.sort();
+        match r {
+            Ok(()) if before == after => return Ok(()),
+            Ok(()) => {}
+            Err(e) => last_err = Some(e),
+        }
+        std::thread::sleep(Duration::from_millis(5));
+    }
+    Err(last_err.unwrap_or_else(|| std::io::Error::other("directory never stable")))
+}
+
+fn copy_dir_once(src: &Path, dst: &Path) -> std::io::Result<()> {
     std::fs::create_dir_all(dst)?;
     for e in std::fs::read_dir(src)? {
         let e = e?;
         let p = e.path();
         let q = dst.join(e.file_name());
         if e.file_type()?.is_dir() {
-            copy_dir(&p, &q)?;
+            copy_dir_once(&p, &q)?;
         } else {
             std::fs::copy(&p, &q)?;
         }
